@@ -3,6 +3,8 @@
    i.e. over all schedules; the manifest/restore-plan half is C01's quantification over completion
    orders and write orders (re-exported here). *)
 From Coq Require Import List Arith Bool Permutation.
+From Coq Require Import ZArith.
+From Replicat Require Model.LimiterLock Proofs.LimiterLockProofs.
 From Replicat Require Import Lib.ListX Model.Sched Model.Stream Proofs.SchedProofs Proofs.SchedTie Proofs.RoundTrip Gen.SchedFacts.
 Import ListNotations.
 
@@ -68,6 +70,34 @@ Theorem C09_pipe_trace_exactly_once : forall cap evs done',
 Proof. exact pipe_trace_exactly_once. Qed.
 Print Assumptions C09_slot_trace_sound.
 Print Assumptions C09_pipe_trace_exactly_once.
+
+(* 6. "no spurious errors": the rate limiter shared by the transfer threads.  For any number of threads, any amounts owed and any
+   interleaving of their steps, every length time.sleep is called with exceeds the pause threshold (so it is positive: no
+   ValueError in a transfer because of what another thread did to the shared account).  The boolean is what the translator found
+   in the working tree: evaluation of the length, sleep and settlement inside the critical section of the threshold test *)
+Theorem C09_limiter_sleep_lengths : forall cap thr prog tr s,
+  LimiterLock.lreach cap thr limiter_sleeps_under_lock (LimiterLock.linit prog) tr s ->
+  Forall (fun v => match v with LimiterLock.Sleep x => (thr < x)%Z end) tr.
+Proof. exact (fun cap thr prog tr s H => proj2 (LimiterLockProofs.locked_sleep_lengths cap thr prog tr s H)). Qed.
+Theorem C09_limiter_never_sleeps_negative : forall cap thr, (0 <= thr)%Z -> forall prog tr s,
+  LimiterLock.lreach cap thr limiter_sleeps_under_lock (LimiterLock.linit prog) tr s ->
+  Forall (fun v => match v with LimiterLock.Sleep x => (0 < x)%Z end) tr.
+Proof. exact LimiterLockProofs.locked_never_sleeps_negative. Qed.
+Theorem C09_limiter_threshold_nonneg : limiter_threshold_nonneg = true.
+Proof. reflexivity. Qed.
+(* with the sleep after the lock has been released, two threads suffice for a negative length *)
+Theorem C09_limiter_unlocked_refuted :
+  exists tr s, LimiterLock.lreach 500 250 false
+                 (LimiterLock.linit (fun i => match i with 0 => [500%Z] | 1 => [0%Z] | _ => [] end)) tr s /\
+               In (LimiterLock.Sleep (-1)) tr.
+Proof. exact LimiterLockProofs.unlocked_sleep_negative_refuted. Qed.
+Example C09_limiter_concrete :
+  exists tr s, LimiterLock.lreach 500 250 true (LimiterLock.linit (fun i => match i with 0 => [500%Z] | _ => [] end)) tr s /\
+               tr = [LimiterLock.Sleep 500].
+Proof. exact LimiterLockProofs.locked_concrete. Qed.
+Print Assumptions C09_limiter_sleep_lengths.
+Print Assumptions C09_limiter_never_sleeps_negative.
+Print Assumptions C09_limiter_unlocked_refuted.
 
 Theorem C09_source_facts : all_sched_facts = true.
 Proof. exact sched_facts_hold. Qed.
